@@ -142,6 +142,7 @@ Proof.
   rewrite Hd in Hd1.
   destruct (h5_fus_spec (S (length body)) st1 (mtu - (3 + 0)) h0 h1 (nh_type (Z.lor (Z.shiftl h0 8) h1)) (zlen body) body
               Hd1 ltac:(lia) ltac:(lia) ltac:(lia) ltac:(lia)) as (fs & cs & Hrun & Hrel & Hcat & Hall & Hne).
+  replace (zlen body <=? mtu - (3 + 0)) with false by lia.
   rewrite Hrun. rewrite Z.eqb_refl in Hrel. rewrite nh_type_of_bytes in Hrel by lia.
   exists st1, out1, fs, cs. split; [reflexivity|]. split; [reflexivity|]. split; [exact Hrel|]. split; [exact Hcat|].
   split; [eapply Forall_impl; [|exact Hall]; cbv beta; intros; lia|].
